@@ -551,6 +551,57 @@ def r1_stateless(program, rep):
 r1_stateless.helper_aware = True
 
 
+
+def r2_bounds_on_scaled(program, rep):
+    """In the array converter, whatever is compared with or clipped against
+    the integer bounds (self.min_value / self.max_value) is the *scaled*
+    value (values * 2 ** n_frac), never the caller's unscaled array: a
+    saturation decided on the unscaled input forces in-range elements to
+    the extreme whenever n_frac is not 0 (and leaves out-of-range ones)."""
+    fn = program.get(MOD + ":NumpyFloatToFixConverter.__call__")
+    inst = qual(fn)
+    T = Terms(fn)
+    ps = formals(fn)
+    if len(ps) < 2:
+        raise AnalysisError("NumpyFloatToFixConverter.__call__: signature")
+    RAW = ("param", ps[1])
+
+    def is_bound(t):
+        t = plain(t)
+        return t[0] == "attr" and t[2] in ("max_value", "min_value") and \
+            t[1] == ("param", ps[0])
+    n = 0
+    for c in ast.walk(fn):
+        sides = None
+        if isinstance(c, ast.Compare) and len(c.ops) == 1:
+            sides = [c.left, c.comparators[0]]
+        elif isinstance(c, ast.Call) and isinstance(c.func, ast.Attribute) \
+                and c.func.attr in ("clip", "minimum", "maximum",
+                                    "fmin", "fmax") and len(c.args) >= 2:
+            sides = list(c.args[:3])
+        if sides is None:
+            continue
+        try:
+            node = T.cfg.node_containing(c)
+            ts = [T.term(x, node) for x in sides]
+        except AnalysisError:
+            continue
+        if not any(is_bound(t) for t in ts):
+            continue
+        n += 1
+        raw = [t for t in ts if plain(t) == RAW]
+        rep.check(not raw, "C16-R2", inst, "what is compared with / clipped "
+                  "against the integer bounds is the scaled value",
+                  construct="bound applied to the unscaled input", node=c,
+                  fail="'%s' applies the integer bound (min_value / "
+                       "max_value, in units of 2 ** -n_frac) to the caller's "
+                       "unscaled array %s: for n_frac != 0 elements well "
+                       "inside the range are forced to the extreme" % (
+                           unparse(c)[:70], ps[1]), positive=True)
+    if not n:
+        raise AnalysisError("NumpyFloatToFixConverter.__call__: no use of "
+                            "the integer bounds found")
+
 def check(program, rep):
     program.module(MOD)
     folder = Folder(program)
@@ -560,6 +611,7 @@ def check(program, rep):
         "C16-R2", r2_array, program, folder, rep) or (None,) * 4
     rep.guard("C16-R3", r3_representable, program, folder, rep, widths, fl, n_bits)
     rep.guard("C16-R4", r4_inverse, program, rep)
+    rep.guard("C16-R2", r2_bounds_on_scaled, program, rep)
     # the signed flag selects the clip bounds, the dtype and the sign
     # handling: each reader takes it the same way (FALSY, falsy.py)
     from .. import falsy
